@@ -1,5 +1,6 @@
 """C15 — ApplyDefaults only adds declared defaults; ValidateDefaults checks them."""
 from .. import gen_schema as gs
+from .. import gen_values as gv
 from .. import vjudge
 from ..wire import Obj, Num, parse_ordered, from_tagged, canon
 
@@ -13,6 +14,13 @@ RULE = ("schemas with defaults of every JSON type at depth <= 4 of properties, w
         "statement: idempotent; present values untouched; required never filled; every inserted value is the declared default completed "
         "by nested defaults, or a non-empty container of such; Resolve(ValidateDefaults) = 'every default validates against its schema' "
         "(Spec). And = model. Non-trivial: >= 1 default applied or withheld; distinct = operation text")
+RULE += (". Widened (~8% of the operations): the same laws for TYPED container instances (argument ginsts: Go value descriptors, "
+         "ApplyDefaults gets a *T): map[string]map[string]any, map[string][]int / []float64 / []any / []json.Number, named key types, "
+         "map[string]*map[string]any, map[string]*[]int, three-level typed maps, and map[string]any holding pointers — against schemas "
+         "with 2..4 properties at one level that declare object / array defaults (some completed by nested defaults, some only nested, some "
+         "required), with every subset of them present. Judged against the statement (present values untouched, inserted = declared default "
+         "completed, idempotent) and, in the harness, no container of the result reachable twice (inserted defaults alias neither each "
+         "other nor a present value); the untyped twin of every typed instance also runs against the model")
 PREFILTER = vjudge.prefilter
 
 
@@ -85,9 +93,96 @@ def gen_inst(rng, schema, depth=0):
     return Obj(kvs)
 
 
+def typed_case(rng):
+    """Container-valued defaults for several properties of one level, and instances whose Go type fixes the element type."""
+    shape = rng.choice(["objs", "objs", "objs", "arrs", "arrs", "ptrobjs", "ptrarrs", "anyptr", "anyptr", "nested"])
+    numeric = shape == "objs" and rng.random() < 0.2
+    names = rng.sample(gs.NAMES + ["e", "f"], rng.randint(2, 4))
+    inner = ["max", "env", "x", "y", "a"]
+
+    def scalar():
+        return Num(str(rng.randint(0, 12))) if numeric or rng.random() < 0.5 else rng.choice(["prod", "", True, None, Num("2.5")])
+
+    def obj(lo=0):
+        return Obj([(k, scalar()) for k in rng.sample(inner, rng.randint(lo, 2))])
+
+    def arr():
+        return [Num(str(rng.randint(0, 9))) for _ in range(rng.randint(0, 4))]
+
+    objish = shape in ("objs", "ptrobjs", "nested") or (shape == "anyptr" and rng.random() < 0.6)
+    cont = obj if objish else arr
+
+    def level(depth):
+        props = Obj()
+        for k in (names if depth == 0 else rng.sample(inner, rng.randint(2, 3))):
+            r = rng.random()
+            sub = Obj([("type", "object" if objish else "array")] if rng.random() < 0.4 else [])
+            if shape == "nested" and depth == 0:
+                sub = level(1)
+                if rng.random() < 0.3:
+                    sub.set("default", Obj([(kk, obj(1)) for kk in rng.sample(inner, rng.randint(0, 1))]))
+            elif r < 0.65:
+                sub.set("default", cont())
+                if objish and rng.random() < 0.35:
+                    sub.set("properties", Obj([(kk, Obj([("default", scalar())])) for kk in rng.sample(inner, rng.randint(1, 2))]))
+            elif r < 0.8 and objish:
+                sub.set("properties", Obj([(kk, Obj([("default", scalar())])) for kk in rng.sample(inner, rng.randint(1, 2))]))
+            elif r < 0.9 and objish:
+                sub.set("properties", Obj([("name", Obj([("type", "string")]))]))
+            props.kvs.append((k, sub))
+        o = Obj([("type", "object")] if rng.random() < 0.5 else [])
+        o.set("properties", props)
+        if rng.random() < 0.2:
+            o.set("required", rng.sample(props.keys(), 1))
+        return o
+
+    root = level(0)
+
+    def inst():
+        kvs = []
+        for k, sub in root.get("properties").kvs:
+            if rng.random() < 0.4:
+                if shape == "nested":
+                    kvs.append((k, Obj([(kk, obj()) for kk in (sub.get("properties") or Obj()).keys() if rng.random() < 0.4])))
+                else:
+                    kvs.append((k, cont()))
+        if rng.random() < 0.15:
+            kvs.append(("extra", cont() if shape != "nested" else Obj()))
+        return Obj(kvs)
+
+    T = {"objs": ["map[string]map[string]any"] * 3 + ["map[mystring]map[string]any", "map[string]map[mystring]any"],
+         "arrs": ["map[string][]int", "map[string][]int", "map[string][]float64", "map[string][]any", "map[string][]jnum", "map[mystring][]int"],
+         "ptrobjs": ["map[string]*map[string]any"], "ptrarrs": ["map[string]*[]int", "map[string]*[]any"],
+         "nested": ["map[string]map[string]map[string]any"], "anyptr": ["map[string]any"]}[shape]
+    T = rng.choice(T) if not numeric else "map[string]map[string]float64"
+    jinsts, ginsts = [], []
+    for i in range(3):
+        j = inst() if i else Obj()
+        if shape == "anyptr":
+            items = []
+            for k, v in j.kvs:
+                c = gv.canonical_repr(v)
+                items.append([k, {"t": "*" + c["t"], "v": c} if rng.random() < 0.7 else c])
+            g = {"t": "map[string]any", "v": items}
+        else:
+            g = gv.represent_as(rng, j, T)
+        if g is None:
+            continue
+        jinsts.append(j)
+        ginsts.append(g)
+    if not ginsts:
+        return None
+    return {"op": "defaults", "args": {"schema": root, "insts": jinsts, "ginsts": ginsts}, "meta": {"typed": T}}
+
+
 def gen(rng, tier, n):
     ops = []
     while len(ops) < n:
+        if rng.random() < 0.08:
+            o = typed_case(rng)
+            if o is not None:
+                ops.append(o)
+            continue
         d7 = rng.random() < 0.2
         dk = "definitions" if d7 else "$defs"
         root = gen_obj_schema(rng, rng.choice([1, 2, 3, 4 if tier == "thorough" else 3]), dk=dk)
@@ -206,6 +301,27 @@ def judge(o, go, m):
             return "violation", "instance %d: %s (result %s)" % (i, e, g1["text"])
         if canon(from_tagged(m1["value"])) != canon(a1):
             return "violation", "instance %d: real package %s, model %r" % (i, g1["text"], from_tagged(m1["value"]))
+    # typed instances: judged against the statement (the model has no typed values; their untyped twins are judged above)
+    for k, d in enumerate(o["args"].get("ginsts") or []):
+        t = (go.get("typed") or [])[k] if k < len(go.get("typed") or []) else None
+        if t is None:
+            return "violation:harness", "no result for typed instance %d" % k
+        if "panic" in (t["r"], t["r2"]):
+            return "violation", "typed instance %d (%s): ApplyDefaults panics" % (k, d["t"] if d else None)
+        if t["r"] != "ok":
+            continue        # a default that the element type cannot hold: an error is the documented answer
+        before = gv.denote(d)
+        a1, a2 = parse_ordered(t["text"]), parse_ordered(t["text2"])
+        if t["r2"] != "ok" or canon(a1) != canon(a2):
+            return "violation", "typed instance %d (%s): ApplyDefaults is not idempotent: %s then %s" % (k, d["t"], t["text"], t["text2"])
+        if not extends(before, a1):
+            return "violation", "typed instance %d (%s): a value already present was changed: %s" % (k, d["t"], t["text"])
+        e = check(schema, before, a1)
+        if e:
+            return "violation", "typed instance %d (%s): %s (result %s)" % (k, d["t"], e, t["text"])
+        if t.get("shared"):
+            return "violation", "typed instance %d (%s): %s after ApplyDefaults — an inserted default shares its container with another entry (result %s)" % (
+                k, d["t"], t["shared"], t["text"])
     if go.get("alias_free") is False:
         return "violation", "ApplyDefaults on one Resolved depends on what callers did to earlier results (a shared container): %s" % go.get("alias_detail")
     # ValidateDefaults
